@@ -186,6 +186,9 @@ func (m *maxInflightWrapper) SetLimit(acquireResult *AcquireResult) bool {
 			if inflight < localMax {
 				inflight = localMax
 			}
+			if inflight > m.max {
+				inflight = m.max
+			}
 			klog.V(2).Infof("[global maxInflight] cluster=%q resize flowcontrol=%s max=%v for error: %v",
 				m.fcc.cluster, m.fcc.name, inflight, result.Error)
 			m.FlowControl.Resize(uint32(inflight), 0)
@@ -213,9 +216,16 @@ func (m *maxInflightWrapper) SetLimit(acquireResult *AcquireResult) bool {
 		atomic.StoreInt32(&m.acquiredMaxInflight, limit)
 		m.FlowControl.Resize(uint32(limit), 0)
 	} else {
+		limit := result.Limit
+		if limit > m.max {
+			limit = m.max
+		}
+		if limit < 0 {
+			limit = 0
+		}
 		atomic.StoreInt32(&m.overLimited, 1)
-		atomic.StoreInt32(&m.acquiredMaxInflight, result.Limit)
-		m.FlowControl.Resize(uint32(result.Limit), 0)
+		atomic.StoreInt32(&m.acquiredMaxInflight, limit)
+		m.FlowControl.Resize(uint32(limit), 0)
 	}
 
 	atomic.StoreInt64(&m.lastAcquireTime, acquireResult.requestTime)
@@ -230,6 +240,9 @@ func (m *maxInflightWrapper) Resize(max uint32, burst uint32) bool {
 	m.reserve = int32(max) * GlobalMaxInflightBurstPercent / 100
 	if m.reserve < GlobalMaxInflightBurstMinInflight {
 		m.reserve = GlobalMaxInflightBurstMinInflight
+	}
+	if m.reserve > int32(max) {
+		m.reserve = int32(max)
 	}
 
 	m.max = int32(max)
@@ -385,6 +398,9 @@ func (m *tokenBucketWrapper) SetLimit(acquireResult *AcquireResult) bool {
 			if lastQPS < float64(localQPS) {
 				lastQPS = float64(localQPS)
 			}
+			if lastQPS > float64(m.qps) {
+				lastQPS = float64(m.qps)
+			}
 			klog.V(2).Infof("[global tokenBucket] cluster=%q resize flowcontrol=%s qps=%v requestID=%v for error: %v",
 				m.fcc.cluster, m.fcc.name, lastQPS, acquireResult.requestTime, result.Error)
 
@@ -407,7 +423,10 @@ func (m *tokenBucketWrapper) SetLimit(acquireResult *AcquireResult) bool {
 		if token > m.reserve {
 			token = m.reserve
 		}
-		atomic.AddInt32(&m.tokens, result.Limit)
+		if token < 0 {
+			token = 0
+		}
+		atomic.AddInt32(&m.tokens, token)
 	}
 
 	atomic.StoreInt64(&m.lastAcquireTime, acquireResult.requestTime)
